@@ -216,7 +216,12 @@ def w_objects(arg):
             inp = ['preamble line\n\n', 'Gr\u00fc\u00dfe,\n\n'][c['i'] % 2] + text + '\ntrailer\n'
         elif c['form'] == 'surround-bytes':
             # the same as bytes, the text in front beginning with a non-ASCII character (UTF-8, Latin-1) or a byte order mark
-            inp = ['\u00c9mile wrote:\n\n'.encode('utf-8'), '\u00c9mile wrote:\n\n'.encode('latin-1'), b'\xef\xbb\xbf', '\u00fcber\n'.encode('utf-8')][c['i'] % 4] + text.encode('utf-8') + b'\ntrailer\n'
+            pre = ['\u00c9mile wrote:\n\n', '\u00c9mile wrote:\n\n', '\ufeff', '\u00fcber\n'][c['i'] % 4]
+            whole = pre + text + '\ntrailer\n'
+            inp = whole.encode('utf-8')
+            if c['i'] % 4 == 1 and text.isascii():
+                # a file in Latin-1 throughout (one character set per input: header values beyond ASCII stay with UTF-8 files)
+                inp = whole.encode('latin-1')
         elif c['form'] == 'followed':
             # another armored block of another kind behind it (a mail with the signer's key attached, a file of several blocks): the first block is
             # the object, framed by its own armor tail -- not by the last one of the input
